@@ -433,7 +433,13 @@ def rule_i(ctx):
         ctx.ob("floor|sim-time-writes", False, "expected >= 2 time write sites in impl Simulation (found %d)" % n)
 
 
+def rule_j(ctx):
+    from . import c08
+    c08.rule_a(ctx)
+
+
 RULES = [
+    ("C01.j", "time read + insert under one hold of the queue lock", rule_j),
     ("C01.a", "who may write the time", rule_a),
     ("C01.b", "handles hold readers; SyncCell !Clone !Sync", rule_b),
     ("C01.c", "insert guarded by deadline > now", rule_c),
